@@ -33,13 +33,11 @@ const PTR_MASK: usize = !TAG_MASK;
 /// The amount of bits to shift-left the actual value in value objects (last 3 bits store the type tag)
 const VALUE_SHIFT_BITS: usize = 3;
 
-#[allow(unused)]
 /// The max integer value we can store in a value object
-const MAX_INT: isize = std::isize::MAX >> VALUE_SHIFT_BITS;
+pub(crate) const MAX_INT: isize = std::isize::MAX >> VALUE_SHIFT_BITS;
 
-#[allow(unused)]
 /// The minimum integer value we can store in a value object
-const MIN_INT: isize = std::isize::MIN >> VALUE_SHIFT_BITS;
+pub(crate) const MIN_INT: isize = std::isize::MIN >> VALUE_SHIFT_BITS;
 
 #[derive(Debug, PartialEq)]
 #[repr(u8)]
@@ -97,6 +95,15 @@ impl Object {
         // assert there is no data loss because of the shift
         debug_assert_eq!(((value << VALUE_SHIFT_BITS) >> VALUE_SHIFT_BITS), value);
         Self::with_type((value << VALUE_SHIFT_BITS) as _, Type::Int)
+    }
+
+    /// Create a new integer value, or None if the value does not fit
+    #[inline(always)]
+    pub(crate) fn checked_int(value: Option<isize>) -> Option<Self> {
+        match value {
+            Some(value) if (MIN_INT..=MAX_INT).contains(&value) => Some(Self::int(value)),
+            _ => None,
+        }
     }
 
     /// Create a new function value
@@ -370,7 +377,7 @@ impl PartialOrd for Object {
 }
 
 macro_rules! impl_arith {
-    ($func_name:ident, $op:tt) => {
+    ($func_name:ident, $op:tt, $checked_op:ident) => {
         #[inline(always)]
         pub(crate) fn $func_name(self, rhs: Self, gc: &mut GC) -> Result<Object, Error> {
             if self.tag() != rhs.tag() {
@@ -378,7 +385,10 @@ macro_rules! impl_arith {
             }
 
             let result = match self.tag() {
-                Type::Int => Object::int(self.as_int() $op rhs.as_int()),
+                Type::Int => match Object::checked_int(self.as_int().$checked_op(rhs.as_int())) {
+                    Some(result) => result,
+                    None => return Err(Error::TypeError(format!("uitkomst van {} {} {} is geen geldige integer", self.as_int(), stringify!($op), rhs.as_int()))),
+                },
 
                 // Safety: We've already asserted the object type
                 Type::Float => unsafe {
@@ -429,11 +439,11 @@ macro_rules! impl_cmp {
 }
 
 impl Object {
-    impl_arith!(add, +);
-    impl_arith!(sub, -);
-    impl_arith!(mul, *);
-    impl_arith!(div, /);
-    impl_arith!(rem, %);
+    impl_arith!(add, +, checked_add);
+    impl_arith!(sub, -, checked_sub);
+    impl_arith!(mul, *, checked_mul);
+    impl_arith!(div, /, checked_div);
+    impl_arith!(rem, %, checked_rem);
 
     impl_cmp!(gt, >);
     impl_cmp!(gte, >=);
